@@ -142,14 +142,6 @@ def family():
     add("conditional(f<g, v0, v1)", uflmodel.m_conditional(c, v, u), (v, u))
     add("as_vector([conj(v0)*v1, 0])[i]*F[i]", mult(idx(uflmodel.m_list_tensor(P(Conj(v), u), zero), i), idx(fv, i)), (v, u))
     add("as_vector([v0, v1])[i]*F[i]", mult(idx(uflmodel.m_list_tensor(v, u), i), idx(fv, i)), (v, u))
-    add("inner(V1, V0)", cm["Inner"](uu, vv), (vv, uu))
-    add("inner(V0, V1)", cm["Inner"](vv, uu), (vv, uu))
-    add("dot(V1, conj(V0))", cm["Dot"](uu, Conj(vv)), (vv, uu))
-    add("dot(V0, V1)", cm["Dot"](vv, uu), (vv, uu))
-    add("outer(V0, V1)[i,i]", idx(cm["Outer"](vv, uu), i, i), (vv, uu))
-    add("outer(V1, V0)[i,i]", idx(cm["Outer"](uu, vv), i, i), (vv, uu))
-    add("inner(F, V0)", cm["Inner"](fv, vv), (vv,))
-    add("inner(V0, F)", cm["Inner"](vv, fv), (vv,))
     add("v0*v0*v1", P(P(v, v), u), (v, u))
     add("v0   (form has two arguments)", P(f, v), (v, u))
     # rank 3
@@ -279,5 +271,5 @@ def run(ctx) -> Report:
         "lifted term was shown additive and (anti)homogeneous in each form argument and to contain exactly the form's arguments "
         f"({counts['accepted']} accepted, {counts['rejected']} rejected); FormData.__init__ must run the check on every path."
     )
-    rep.assumptions = ["soundness direction only (accepted => multilinear); rejecting a multilinear integrand is not a violation of the property", "finite integrand family; argument parts not exercised"]
+    rep.assumptions = ["compound tensor operators (inner/dot/outer) never reach the arity check as run by compute_form_data (they are lowered first): their handlers are not part of the claim", "soundness direction only (accepted => multilinear); rejecting a multilinear integrand is not a violation of the property", "finite integrand family; argument parts not exercised"]
     return rep
